@@ -322,7 +322,7 @@ def pipeline(mod, pid, tier, seed, args, work, t0):
     exit_code = 0
     # on a broken tie (obligation or correspondence) search harder for a failing input
     if (undischarged or mism or coq_errors) and not failing and not args.replay:
-        extra = list(mod.gen(random.Random("%s-%d-search" % (pid, seed)), mod.N_THOROUGH, "thorough"))
+        extra = list(mod.gen(random.Random("%s-%d-search" % (pid, seed)), getattr(mod, "N_SEARCH", mod.N_THOROUGH), "thorough"))
         eobs = run_impl_all(mod, extra)
         for c, o in zip(extra, eobs):
             msg = oracle_msg(mod, c, o)
